@@ -81,3 +81,14 @@ package htmldoc
 //@   loop 0:
 //@     invariant !isnil(result)
 //@     invariant len(result.String()) >= len(old(result.String())) && sameseq(result.String()[0:len(old(result.String()))], old(result.String()))
+
+// ---- C19: a <p>/<div> is walked child by child (instead of being emitted with its whole text) only when it has a
+// block-level child; inline children - code, span, a, em ... - never make it a container, because the walk emits no
+// bare text nodes and the paragraph's own text would be lost ----
+//@ spec func blockTag(s string) bool = s == "div" || s == "p" || s == "ul" || s == "ol" || s == "table" || s == "h1" || s == "h2" || s == "h3" || s == "h4" || s == "h5" || s == "h6" || s == "blockquote" || s == "pre" || s == "article" || s == "section" || s == "main" || s == "header" || s == "footer" || s == "nav" || s == "aside"
+//@ func isBlockContainer results (r)
+//@   property C19
+//@   flags nosafety
+//@   atreturn#1 only_a_block_level_child_makes_a_container: c.Type == html.ElementNode && blockTag(c.Data)
+//@   loop 0:
+//@     step a_block_level_child_ends_the_search: !isnil(prev(c)) ==> !(prev(c).Type == html.ElementNode && blockTag(prev(c).Data))
